@@ -91,7 +91,9 @@ Definition m_append (st : xstate) (parent child : N) : xstate * mout :=
   if negb (structure_check st (Some parent) child) then (st, MErr EInvalidOperation) else
   if opt_eqb (q_raw_last_child st parent) (Some child) then (st, MDone None) else
   let '(st1, _) := remove_consolidate st (q_prev st child) (q_next st child) in
-  let '(st2, merged) := add_consolidate st1 child (q_last_child st1 parent) None in
+  (* the last child may by now be the child itself (its old neighbours were merged): its own previous sibling then *)
+  let last := if opt_eqb (q_last_child st1 parent) (Some child) then q_prev st1 child else q_last_child st1 parent in
+  let '(st2, merged) := add_consolidate st1 child last None in
   if merged then (st2, MDone None) else
   (move st2 child (fun t f => fmap_kids parent (fun k => fapp k t) f), MDone None).
 
@@ -117,7 +119,8 @@ Definition m_insert_before (st : xstate) (ref new : N) : xstate * mout :=
   if negb (sibling_check st ref new) then (st, MErr EInvalidOperation) else
   if opt_eqb (q_next st new) (Some ref) then (st, MDone None) else
   let '(st1, _) := remove_consolidate st (q_prev st new) (q_next st new) in
-  let '(st2, merged) := add_consolidate st1 new (q_prev st1 ref) (Some ref) in
+  let prev := if opt_eqb (q_prev st1 ref) (Some new) then q_prev st1 new else q_prev st1 ref in
+  let '(st2, merged) := add_consolidate st1 new prev (Some ref) in
   if merged then (st2, MDone None) else
   (move st2 new (fun t f => finsert_before ref t f), MDone None).
 
